@@ -331,6 +331,32 @@ theorem C13_nested_flat_is_block (S' : Tag → Prop) (G d : Tag) (ts : List Tag)
     NestedOK S' (flatTmpl (d :: ts)) (countTV G es.length :: es.flatMap serEntry) :=
   nestedOK_flat S' G d ts hS' es hes hn
 
+/-- D6, AFTER THE FIX.  With the dictionary, inside a nested group `N` of a group `G` (tag stack `[G, N]`): a body field that is a
+    member of neither `N` nor `G` ends the group — the group is added to the body under its tag and the field itself becomes
+    a body field ("the fields following the group are still found"); a field that is a member of the parent `G` continues
+    the parent group with the stack popped to `[G]`. -/
+theorem C13_fixed_behind_nested_group (d : Dicts) (mt : Bytes) (G N : Tag) (C CN : List DNode) (hg : NestedGroup d mt G N C CN)
+    (fields : List TagValue) (idx j : Nat) (c : PCore) (tv g0 t35 : TagValue)
+    (hmt : MTInv fields c.header t35) (hv : t35.value = mt) (hj : fields[j]? = some g0)
+    (hmN : isGroupMember tv.tag CN = false)
+    (hh : isHeaderField d tv.tag = false) (ht : isTrailerField d tv.tag = false) (hng : NoGroupTag d tv.tag) :
+    (isGroupMember tv.tag C = false →
+      grpSwitch Fixes.cur d fields idx tv j [G, N] CN c =
+        .ok ({ c with trailerBytes := c.rawBytes, body := (c.body.add g0.tag (.view j (idx - j))).add tv.tag (.view idx 1) }, none)) ∧
+    (isGroupMember tv.tag C = true → isNumInGroupField d fields c.header [G, tv.tag] = false →
+      grpSwitch Fixes.cur d fields idx tv j [G, N] CN c = .ok ({ c with trailerBytes := c.rawBytes }, some (.grp j [G] C))) :=
+  ⟨fun hmC => grpSwitch_fixed_exits hg fields idx j c tv g0 t35 hmt hv hj hmN hmC hh ht hng,
+   fun hmC hleaf => grpSwitch_fixed_parent_member hg fields idx j c tv t35 hmt hv hmN hmC hleaf hh ht hng⟩
+
+/-- D6, THE UNCHANGED CODE: in the same situation every body field — member of an enclosing group or not — stays inside the
+    group (the loop continues in group mode with the field appended to the group's view): `Body.Has` is false for it. -/
+theorem C13_orig_swallows_behind_nested_group (d : Dicts) (mt : Bytes) (G N : Tag) (C CN : List DNode) (hg : NestedGroup d mt G N C CN)
+    (fields : List TagValue) (idx j : Nat) (c : PCore) (tv t35 : TagValue)
+    (hmt : MTInv fields c.header t35) (hv : t35.value = mt) (hmN : isGroupMember tv.tag CN = false)
+    (hh : isHeaderField d tv.tag = false) (ht : isTrailerField d tv.tag = false) (hng : NoGroupTag d tv.tag) :
+    grpSwitch Fixes.orig d fields idx tv j [G, N] CN c = .ok ({ c with trailerBytes := c.rawBytes }, some (.grp j [G, N] C)) :=
+  grpSwitch_orig_swallows hg fields idx j c tv t35 hmt hv hmN hh ht hng
+
 /-! ## not (yet) theorems -/
 
 /-- round trip without dictionary, any nesting depth: what `getgrp` must observe after build + parse -/
@@ -368,5 +394,6 @@ example :
    "same fields and values in the same order"                 C13_roundtrip_flat (Write then Read, templates without nesting, any setter calls),
                                                              C13_read_inverts_wire_flat (whole Read, templates without nesting);
                                                              C13_read_member, C13_read_delimiter (one step each, any template); nested: C13_roundtrip_nodict_full
-   "fields following the group are still found"              C13_read_stops_at_follower; with dictionary C13_pop_returns_shorter_stack; whole: …_dict_full
+   "fields following the group are still found"              C13_read_stops_at_follower; with dictionary: C13_fixed_behind_nested_group
+                                                             (vs. C13_orig_swallows_behind_nested_group, D6), C13_pop_returns_shorter_stack, C13_dict_flat_group_mid
    monitor clauses: group_roundtrip{dict=api|n|a|ta,nested=y|n}, followers_found{dict=…} -/
